@@ -36,6 +36,8 @@ Env == <<
   [n |-> "X",   kind |-> "type", ty |-> TNumber],
   [n |-> "InX", kind |-> "type", ty |-> OO(<<Prop("x", Ref("X"), FALSE)>>)],
   [n |-> "W",   kind |-> "type", params |-> <<"X">>, ty |-> OO(<<Prop("i", Ref("InX"), FALSE), Prop("v", Param("X"), FALSE)>>)],
+  [n |-> "InI", kind |-> "interface", ty |-> OO(<<Prop("x", Arr(Ref("X")), FALSE)>>), ext |-> <<>>],
+  [n |-> "W2",  kind |-> "type", params |-> <<"X">>, ty |-> OO(<<Prop("c", Ref("InI"), FALSE), Prop("d", Arr(Param("X")), FALSE)>>)],
   \* a declared name that looks like the name generated for an instantiation (G<string>)
   [n |-> "G_string", kind |-> "type", ty |-> OO(<<Prop("v", TNumber, FALSE)>>)],
   [n |-> "Row", kind |-> "type", ty |-> Tup(<<TString, TNumber>>, <<TBoolean>>)]
@@ -70,6 +72,7 @@ ULeaves == <<
   Index(Ref("Row"), Uni(<<LN("1"), LN("2")>>)), Index(Ref("Row"), TNumber), OO(<<Prop("flag", Index(Ref("Row"), LN("2")), FALSE)>>),
   Index(Tup(<<TString, TNumber>>, <<>>), LN("1")),
   App("W", <<TString>>), OO(<<Prop("w", App("W", <<TString>>), FALSE), Prop("i", Ref("InX"), FALSE)>>),
+  App("W2", <<TString>>), OO(<<Prop("w", App("W2", <<TBoolean>>), FALSE), Prop("c", Ref("InI"), FALSE)>>),
   OO(<<Prop("i", Ref("InX"), FALSE), Prop("w", App("W", <<TBoolean>>), FALSE)>>),
   OO(<<Prop("g", App("G", <<TString>>), FALSE), Prop("u", Ref("G_string"), FALSE)>>)
 >>
